@@ -42,6 +42,25 @@ def check_case(ctx, case):
         return
     if not close(again, scores['rmse'], rel=0):
         ctx.violation('not-reproducible', 'same seed, different score: %r vs %r' % (scores['rmse'], again), case)
+    # the score follows the instance: after another model was set (and fitted) on it, cross-validation uses that
+    # model - it equals the score of a fresh instance constructed with the final settings
+    if case.get('revalidate', True):
+        other = 'exponential' if kw['model'] != 'exponential' else 'spherical'
+        try:
+            with quiet():
+                W = Variogram(coords, values, **kw)
+                float(W.cross_validate(metric='rmse', n=n, seed=seed))
+                W.model = other
+                got2 = float(W.cross_validate(metric='rmse', n=n, seed=seed))
+                F = Variogram(coords, values, **dict(kw, model=other))
+                want2 = float(F.cross_validate(metric='rmse', n=n, seed=seed))
+            ctx.count('revalidated_after_model_change')
+            if not close(got2, want2, rel=1e-9):
+                ctx.violation('stale-model', 'after model=%r was set on an instance that had been cross-validated, rmse = %r; '
+                              'a fresh instance with that model gives %r' % (other, got2, want2), case)
+                return
+        except (RuntimeError, ValueError, AttributeError) as e:
+            ctx.reject('revalidate:' + type(e).__name__)
     size = n if n is not None else len(coords)
     idx = np.random.default_rng(seed=seed).choice(len(coords), replace=False, size=size)
     devs = []
